@@ -43,7 +43,7 @@ def cases(checkers=("none", "byteeq", "count"), ops=None, umask=None, sample=Non
                             L.append(G.op(0, "gou", KEY, op[1], 1, op[2] + (":1" if op[2].startswith("val") else "")))
                             aop = "gou %s %s" % (op[1], op[2])
                         L.append("snap")
-                        absline = "%d %s %s %s %s" % (1 if w else 0, wval, ",".join(rvals) if rvals else "none", ck if ck != "counterr" else "byteeq", aop)
+                        absline = "%d %s %s %s %s" % (1 if w else 0, wval, ",".join(rvals) if rvals else "none", ck if ck not in ("counterr", "countnf") else "byteeq", aop)
                         out.append(({"w": w, "rs": rs, "contents": contents, "ck": ck, "op": op, "abs": absline}, L))
     if sample and sample < len(out):
         rng = C.SplitMix(seed)
@@ -69,7 +69,7 @@ def _one(w, rs, contents, ck, op, which=0, umask=None):
     else:
         L.append(G.op(0, "gou", KEY, op[1], 1, op[2] + (":1" if op[2].startswith("val") else ""))); aop = "gou %s %s" % (op[1], op[2])
     L.append("snap")
-    absline = "%d %s %s %s %s" % (1 if w else 0, wval, ",".join(rvals) if rvals else "none", ck if ck != "counterr" else "byteeq", aop)
+    absline = "%d %s %s %s %s" % (1 if w else 0, wval, ",".join(rvals) if rvals else "none", ck if ck not in ("counterr", "countnf") else "byteeq", aop)
     return ({"w": w, "rs": rs, "contents": tuple(contents), "ck": ck, "op": op, "abs": absline, "which": which}, L)
 
 
@@ -154,6 +154,8 @@ def matches_spec(desc, ob, sp):
     exp = sp["res"]
     if exp == "err:mismatch":
         exp_ok = ob["res"] in ("err:other", "err:mismatch")      # byte_equality_checker reports ErrorKind::Other
+        if desc["ck"] == "countnf":
+            exp_ok = ob["res"] == "err:notfound"                 # this checker reports its verdict with kind NotFound
     else:
         exp_ok = ob["res"] == exp
     if not exp_ok:
